@@ -348,3 +348,42 @@ pub fn replay<W: Write>(out: &mut W, opts: &HashMap<String, String>) {
         emit(out, id, &file, &patches, &impl_out);
     }
 }
+
+/// Engine `T` (C20): one file, one file patch, applied with fuzz limit F and again with F' > F.
+pub fn run_pairs<W: Write>(out: &mut W, seed: u64, n: usize, opts: &HashMap<String, String>) {
+    let max_len: usize = opts.get("maxlen").and_then(|s| s.parse().ok()).unwrap_or(9);
+    let max_hunks: usize = opts.get("hunks").and_then(|s| s.parse().ok()).unwrap_or(3);
+    let mut rng = Rng::new(seed ^ 0x7020);
+    for id in 0..n {
+        let alpha = if rng.chance(70) { 2 } else { 3 };
+        let len = rng.below(max_len + 1);
+        let file = FileSpec { deleted: false, existed: true, perms: None, lines: rand_lines(&mut rng, len, alpha) };
+        let mut p = gen_patch(&mut rng, &file.lines, false, alpha, max_hunks);
+        p.fuzz = rng.below(3);
+        let f2 = p.fuzz + 1 + rng.below(3);
+        emit_pair(out, id, &file, &p, f2);
+    }
+}
+
+fn emit_pair<W: Write>(out: &mut W, id: usize, file: &FileSpec, p: &PatchSpec, f2: usize) {
+    let mut p2 = p.clone();
+    p2.fuzz = f2;
+    let (o1, _) = run_case(file, std::slice::from_ref(p));
+    let (o2, _) = run_case(file, std::slice::from_ref(&p2));
+    writeln!(out, "T|{}|{}|{}|{}|=>|{}|{}", id, file.render(), p.render(), f2, o1, o2).unwrap();
+}
+
+pub fn replay_pairs<W: Write>(out: &mut W, opts: &HashMap<String, String>) {
+    let path = opts.get("file").expect("file=<path>");
+    let text = std::fs::read_to_string(path).unwrap();
+    for line in text.lines() {
+        let line = line.trim();
+        if !line.starts_with("T|") { continue; }
+        let fields: Vec<&str> = line.split('|').collect();
+        let id: usize = fields[1].parse().unwrap_or(0);
+        let file = FileSpec::parse(fields[2]);
+        let p = PatchSpec::parse(fields[3]);
+        let f2: usize = fields[4].parse().unwrap();
+        emit_pair(out, id, &file, &p, f2);
+    }
+}
